@@ -523,6 +523,43 @@ pub fn honest_swarm(seed: u64) -> Plan {
             peer.script.push(step(When::At(r.range(3_000, 45_000)), Act::Gain(*i as u32)));
         }
     }
+    // sole source announced while somebody else is being asked: a piece only a short-lived peer
+    // has at first; an essential peer (interested in us, chatty) gains and announces it while the
+    // short-lived one sits on the request, then the short-lived one disconnects without answering
+    if Rng64::sub(seed, "honest-handover").chance(1, 8) {
+        let mut h = Rng64::sub(seed, "honest-handover-plan");
+        let e = h.usize_below(n_ess);
+        let x = h.usize_below(n);
+        for q in p.peers.iter_mut() {
+            q.has[x] = false;
+            q.script.retain(|s| s.act != Act::Gain(x as u32));
+        }
+        let t_close = h.range(1_500, 20_000);
+        let mut q = base_peer(k, n);
+        q.essential = false;
+        q.has = vec![false; n];
+        q.has[x] = true;
+        q.unchoke = Unchoke::OnInterested(h.range(1, 300));
+        let blocks = ((p.geometry.piece_len_of(x) + 16383) / 16384) as u32;
+        // it answers all blocks but one, or none
+        if h.chance(1, 2) {
+            for b in 0..blocks {
+                q.answer.withhold.push((x as u32, b));
+            }
+        } else {
+            q.answer.withhold.push((x as u32, h.below(blocks as u64) as u32));
+        }
+        q.script.push(step(When::At(t_close), if h.chance(1, 2) { Act::CloseFin } else { Act::CloseRst }));
+        p.peers.push(q);
+        let peer = &mut p.peers[e];
+        peer.script.push(step(When::At(0), Act::Send(Msg::Interested)));
+        let mut t = h.range(30_000, 100_000);
+        while t < 3_600_000 {
+            peer.script.push(step(When::At(t), Act::Send(Msg::Interested)));
+            t += h.range(30_000, 110_000);
+        }
+        peer.script.push(step(When::At(h.range(300, t_close)), Act::Gain(x as u32)));
+    }
     // network partitions that heal (any peer; an honest peer cannot help them)
     for peer in p.peers.iter_mut() {
         if r.chance(1, 8) {
